@@ -46,8 +46,9 @@ type Sched struct {
 	// Rec is the sequence of choices actually taken (the replayable tape).
 	Rec []int
 
-	Steps    int
-	MaxSteps int
+	Steps     int
+	MaxSteps  int
+	stepLimit int
 	// MaxVirtual bounds the virtual time Run may consume while idle.
 	MaxVirtual time.Duration
 	// LockYieldPermille is the probability (in 1/1000) that a shim lock
@@ -78,7 +79,7 @@ func NewSched(seed uint64, tape []int) *Sched {
 		rng:        NewRand(Mix(seed, "sched")),
 		lockRng:    NewRand(Mix(seed, "lock")),
 		Tape:       tape,
-		MaxSteps:   200000,
+		MaxSteps:   20000000,
 		MaxVirtual: 6 * time.Hour,
 		hash:       14695981039346656037,
 	}
@@ -235,9 +236,25 @@ func (s *Sched) choose(n int) int {
 	return v
 }
 
+// RunTasks is like Run but returns as soon as every task has finished, even
+// if goroutines they left behind are still parked (they stay parked until the
+// next Run/RunTasks): the moment right after an operation returned, with its
+// background work still in flight.
+func (s *Sched) RunTasks() error { return s.run(true) }
+
+// RunSteps lets parked goroutines proceed for at most n scheduling decisions
+// (or until quiescence): a seeded point in the middle of background work.
+func (s *Sched) RunSteps(n int) error {
+	s.stepLimit = s.Steps + n
+	defer func() { s.stepLimit = 0 }()
+	return s.run(false)
+}
+
 // Run drives the bubble until every task has finished and no goroutine is
 // parked. It must be called from the bubble's root goroutine.
-func (s *Sched) Run() error {
+func (s *Sched) Run() error { return s.run(false) }
+
+func (s *Sched) run(tasksOnly bool) error {
 	if s.wake == nil {
 		s.wake = make(chan struct{}, 1)
 	}
@@ -246,6 +263,12 @@ func (s *Sched) Run() error {
 	start := time.Now()
 	for {
 		synctest.Wait()
+		if tasksOnly && s.tasks.Load() == 0 {
+			return nil
+		}
+		if s.stepLimit > 0 && s.Steps >= s.stepLimit {
+			return nil
+		}
 		s.mu.Lock()
 		n := len(s.parked)
 		if n == 0 {
